@@ -135,6 +135,8 @@ def showB (b : Bool) : String := if b then "T" else "F"
 def showRecs (l : List Rec) : String := "[" ++ ";".intercalate (l.map Rec.toLine) ++ "]"
 def showOptRec (o : Option Rec) : String := match o with | none => "None" | some r => r.toLine
 def showStrs (l : List String) : String := "[" ++ ",".intercalate l ++ "]"
+def showNames (l : List Svc) : String := ",".intercalate (l.map (·.name))
+def showIdx (d : List (String × List String)) : String := "|".intercalate (d.map (fun p => p.1 ++ "=" ++ ",".intercalate p.2))
 '''
 
 
@@ -205,7 +207,82 @@ def area_history(rng, z, n_cases):
     return "\n\n".join(defs), exprs, exp
 
 
-AREAS = {"History": area_history}
+def area_registry(rng, z, n_cases):
+    from zeroconf import ServiceInfo
+    from zeroconf._services.registry import ServiceRegistry
+
+    types = ["_http._tcp.local.", "_HTTP._tcp.local.", "_ipp._tcp.local."]
+    servers = ["host.local.", "HOST.local.", "other.local."]
+
+    def svc_lean(d):
+        ty, name, server = d
+        return ("({ type := %s, name := %s, server := %s, port := 80, weight := 0, priority := 0, text := [], hostTtl := 120, otherTtl := 4500, "
+                "v4 := [[10, 0, 0, 1]], v6 := [] } : Svc)") % (lstr(ty), lstr(name), lstr(server))
+
+    def show_idx(d):
+        return "|".join("%s=%s" % (k, ",".join(v)) for k, v in d.items())
+
+    defs, exprs, exp = [], [], []
+    for ci in range(n_cases):
+        pool = []
+        for _ in range(4):
+            ty = rng.choice(types)
+            pool.append((ty, rng.choice(["a", "A", "b", "c"]) + "." + ty, rng.choice(servers)))
+        ops = []
+        for _ in range(rng.randint(1, 9)):
+            k = rng.choice(["add", "add", "add", "rm1", "rml", "upd", "q"])
+            ops.append((k, rng.randrange(4), rng.sample(range(4), rng.randint(0, 3)), rng.choice(types + servers + [p[1] for p in pool]).lower()
+                        if rng.random() < 0.8 else rng.choice(types)))
+        reg = ServiceRegistry()
+        infos = [ServiceInfo(ty, name, port=80, server=server, addresses=[bytes([10, 0, 0, 1])]) for ty, name, server in pool]
+        out = []
+        for k, i, js, key in ops:
+            try:
+                if k == "add":
+                    reg.async_add(infos[i])
+                elif k == "rm1":
+                    reg.async_remove(infos[i])
+                elif k == "rml":
+                    reg.async_remove([infos[j] for j in js])
+                elif k == "upd":
+                    reg.async_update(infos[i])
+                else:
+                    one = reg.async_get_info_name(key)
+                    out.append("q:%s:%s:%s:%s:%s" % (",".join(reg.async_get_types()), ",".join(x.name for x in reg.async_get_infos_type(key)),
+                                                     ",".join(x.name for x in reg.async_get_infos_server(key)), "None" if one is None else one.name,
+                                                     ",".join(x.name for x in reg.async_get_service_infos())))
+            except Exception as ex:  # noqa: BLE001
+                out.append("!" + exc_name(ex))
+        out.append("S:%s T:%s V:%s E:%s" % ("|".join("%s=%s" % (k, v.name) for k, v in reg._services.items()), show_idx(reg.types), show_idx(reg.servers),
+                                            "T" if reg.has_entries else "F"))
+        exp.append(" ".join(out))
+        name = "regCase%d" % ci
+        L = ["def %s : String := Id.run do" % name, "  let is : List Svc := [%s]" % ", ".join(svc_lean(d) for d in pool),
+             "  let mut out : List String := []", "  let mut r := GenFn.Registry.ServiceRegistry.init"]
+        R = "GenFn.Registry.ServiceRegistry"
+        for k, i, js, key in ops:
+            if k == "add":
+                L += ["  match %s.async_add L r is[%d]! with" % (R, i), "  | .ok p => r := p.1", "  | .error e => out := out ++ [\"!\" ++ e.name]"]
+            elif k == "rm1":
+                L += ["  match %s.async_remove L r is[%d]! with" % (R, i), "  | .ok p => r := p", "  | .error e => out := out ++ [\"!\" ++ e.name]"]
+            elif k == "rml":
+                L += ["  match %s.async_remove_list L r [%s] with" % (R, ", ".join("is[%d]!" % j for j in js)), "  | .ok p => r := p",
+                      "  | .error e => out := out ++ [\"!\" ++ e.name]"]
+            elif k == "upd":
+                L += ["  match %s.async_update L r is[%d]! with" % (R, i), "  | .ok p => r := p.1", "  | .error e => out := out ++ [\"!\" ++ e.name]"]
+            else:
+                L += ["  match r.async_get_infos_type %s, r.async_get_infos_server %s with" % (lstr(key), lstr(key)),
+                      "  | .ok a, .ok b => out := out ++ [\"q:\" ++ \",\".intercalate r.async_get_types ++ \":\" ++ showNames a ++ \":\" ++ showNames b ++ \":\" ++ "
+                      "(match r.async_get_info_name %s with | none => \"None\" | some x => x.name) ++ \":\" ++ showNames r.async_get_service_infos]" % lstr(key),
+                      "  | .error e, _ => out := out ++ [\"!\" ++ e.name]", "  | _, .error e => out := out ++ [\"!\" ++ e.name]"]
+        L.append("  out := out ++ [\"S:\" ++ \"|\".intercalate (r.services.map (fun p => p.1 ++ \"=\" ++ p.2.name)) ++ \" T:\" ++ showIdx r.types ++ \" V:\" ++ showIdx r.servers ++ \" E:\" ++ showB r.has_entries]")
+        L.append("  return \" \".intercalate out")
+        defs.append("\n".join(L))
+        exprs.append(name)
+    return "\n\n".join(defs), exprs, exp
+
+
+AREAS = {"History": area_history, "Registry": area_registry}
 
 
 def emit(repo):
@@ -229,7 +306,7 @@ def emit(repo):
         defs.append(d)
         exprs += e
         expected += x
-    lean = "\n".join(imports) + "\nimport Zc.Py.Model\n" + PRELUDE + "\n" + "\n\n".join(defs) + "\n\n" + \
+    lean = "\n".join(imports) + "\nimport Zc.Py.Model\nimport Zc.Model.Registry\n" + PRELUDE + "\n" + "\n\n".join(defs) + "\n\n" + \
         "\n".join('#eval IO.println ("=== " ++ %s)' % e for e in exprs) + "\n"
     json.dump({"lean": lean, "expected": expected}, sys.stdout)
 
